@@ -51,6 +51,27 @@ def call_gen(lean_name, arg_types, ret):
     return mk
 
 
+def bound(expected_args, result, expected_kw=None):
+    """a call the binding table reads as a fixed model term - but only in the exact shape it was written for: the source text of
+    every argument has to be the expected one (anything else: outside the fragment, the target falls back to the alias)"""
+    def mk(fn, args, kw, env):
+        got = [ast.unparse(x) for x in args]
+        gotk = {k_: ast.unparse(v_) for k_, v_ in kw.items()}
+        if got != list(expected_args) or gotk != (expected_kw or {}):
+            raise NotTranslatable(f"bound call with arguments {got} {gotk}, expected {list(expected_args)}")
+        return result
+    return mk
+
+
+def bound_on(marker, result):
+    """a bound call whose single argument has to translate to the given marker term (i.e. be the bound object, however named)"""
+    def mk(fn, args, kw, env):
+        if kw or len(args) != 1 or fn.expr(args[0], env)[1] != marker[1]:
+            raise NotTranslatable("bound call on another argument than the one the binding table names")
+        return result
+    return mk
+
+
 TARGETS = []
 
 # ---------------------------------------------------------------------------------------------- C13
@@ -163,6 +184,9 @@ RECORDS = {
 
 
 def _iter_tcp(fn, args, kw, env):
+    # `recs` is the list of TCP records of the packet's direction: only for exactly that lookup
+    if kw or [ast.unparse(x) for x in args] != ["TCPRecord", "direction"]:
+        raise NotTranslatable("options.database.iter_values call shape")
     return ("recs", "List:Rec:Rec")
 
 
@@ -379,8 +403,8 @@ TARGETS.append(dict(
          "options.max_timestamp_scale": ("(Q.mk (o.maxScaleN : Int) o.maxScaleD)", "Q"),
          "options.min_timestamp_scale": ("(Q.mk (o.minScaleN : Int) o.minScaleD)", "Q")},
     records=UPTIME_RECORDS, raises={"PacketError": "none"},
-    calls={"valid_for_uptime_fingerprint": lambda fn, a, k, e: ("(P0f.Gen.validUptime isFragment t)", "Bool"),
-           "get_unix_time_ms": lambda fn, a, k, e: ("now", "Int"),
+    calls={"valid_for_uptime_fingerprint": bound(["packet"], ("(P0f.Gen.validUptime isFragment t)", "Bool")),
+           "get_unix_time_ms": bound([], ("now", "Int")),
            "UptimeResult": _uptime_result, "Uptime": _uptime_ctor},
     alias="def fingerprintUptime (o : UpOpts) (isFragment : Bool) (t tsPrev tsNow : Nat) (now received : Int) : Option (" + UPRES_LEAN
           + ") := P0f.fingerprintUptimeFields o isFragment t tsPrev tsNow (now - received)\n",
@@ -421,10 +445,10 @@ TARGETS.append(dict(
     calls={
         # `signature.header_names` = lower-cased names of the non-optional signature headers, `absent_headers` = lower-cased absent
         # names, `packet_signature.header_names` = lower-cased packet header names (sets; dataclass plumbing, C09 / C07 tie them)
-        "signature.header_names.issubset": lambda fn, a, k, e: ("((s.headers.filter (fun h => !h.optional)).all (fun h => (ph.map fun x => lower x.name).contains (lower h.name)))", "Bool"),
-        "signature.absent_headers.intersection": lambda fn, a, k, e: ("(s.absent.filter fun a => (ph.map fun x => lower x.name).contains a)", "List:Bytes"),
-        "signature.absent_headers.isdisjoint": lambda fn, a, k, e: ("(!(s.absent.any fun a => (ph.map fun x => lower x.name).contains a))", "Bool"),
-        "headers_match": lambda fn, a, k, e: ("(P0f.Gen.headersMatch s.headers ph)", "Bool"),
+        "signature.header_names.issubset": bound_on(("()", "Unit"), ("((s.headers.filter (fun h => !h.optional)).all (fun h => (ph.map fun x => lower x.name).contains (lower h.name)))", "Bool")),
+        "signature.absent_headers.intersection": bound_on(("()", "Unit"), ("(s.absent.filter fun a => (ph.map fun x => lower x.name).contains a)", "List:Bytes")),
+        "signature.absent_headers.isdisjoint": bound_on(("()", "Unit"), ("(!(s.absent.any fun a => (ph.map fun x => lower x.name).contains a))", "Bool")),
+        "headers_match": bound(["signature.headers", "packet_signature.headers"], ("(P0f.Gen.headersMatch s.headers ph)", "Bool")),
     },
     alias="def httpSigMatch (s : HttpSig) (minor : Nat) (ph : List Hdr) : Bool := P0f.httpSigMatch s minor ph\n",
 ))
@@ -435,8 +459,9 @@ TARGETS.append(dict(
     params=[("recs", "List HttpRec"), ("minor", "Nat"), ("ph", "List Hdr")], ret="Opt:Rec:HttpRec", lean_ret="Option HttpRec",
     env={"packet_signature": ("()", "Rec:HttpPkt"), "direction": ("()", "Unit")},
     records=HTTP_RECORDS, opt_types={"generic_match": "Opt:Rec:HttpRec"},
-    calls={"database.iter_values": lambda fn, a, k, e: ("recs", "List:Rec:HttpRec"),
-           "http_signatures_match": lambda fn, a, k, e: ("(P0f.Gen.httpSigMatch " + par(fn.expr(a[0], e)[0]) + " minor ph)", "Bool")},
+    calls={"database.iter_values": bound(["HTTPRecord", "direction"], ("recs", "List:Rec:HttpRec")),
+           "http_signatures_match": lambda fn, a, k, e: ("(P0f.Gen.httpSigMatch " + par(fn.expr(a[0], e)[0]) + " minor ph)", "Bool")
+           if len(a) == 2 and not k and ast.unparse(a[1]) == "packet_signature" else (_ for _ in ()).throw(NotTranslatable("http_signatures_match call shape"))},
     alias="def findHttpMatch_loop0 (recs : List HttpRec) (minor : Nat) (ph : List Hdr) (l : List HttpRec) (g : Option HttpRec) : Option HttpRec := P0f.findHttpLoop minor ph l g\n"
           "def findHttpMatch (recs : List HttpRec) (minor : Nat) (ph : List Hdr) : Option HttpRec := P0f.findHttpMatch recs minor ph\n",
 ))
@@ -520,7 +545,7 @@ TARGETS.append(dict(
     ret="Opt:Nat", lean_ret="Option Nat",
     env={"signature.window.type": ("s.wtype", "Enum:WinType"), "signature.window.size": ("s.wsize", "Nat"), "tcp.window": ("b.window", "Nat"), "mtu": ("mtu", "Nat")},
     random_sites=[("c.winMul", "Nat")], raises={"ValueError": "none"},
-    calls={"dict(new_options).get": lambda fn, a, k, e: ("(lastMss opts)", "Opt:Nat")},
+    calls={"dict(new_options).get": bound(["'MSS'"], ("(lastMss opts)", "Opt:Nat"))},
     alias="def impWindow (s : Sig) (b : Base) (opts : List SOpt) (mtu : Nat) (c : Choices) : Option Nat := (P0f.impWindow s b opts mtu c).toOption\n",
 ))
 
@@ -560,6 +585,27 @@ def _drop_parse_packet(stmts):
     return [st for st in stmts if not (isinstance(st, ast.Assign) and ast.unparse(st) == "packet = parse_packet(packet)")]
 
 
+def _shape(cond, what):
+    if not cond:
+        raise NotTranslatable(what + " call shape")
+
+
+def _ft_from_packet(fn, a, k, e):
+    _shape(len(a) == 2 and not k and ast.unparse(a[0]) == "packet", "TCPPacketSignature.from_packet")
+    return ("(P0f.Gen.pktSigFromPacket pk " + par(fn.coerce(a[1], e, "Nat")) + ")", "Rec:PktSig")
+
+
+def _ft_find(fn, a, k, e):
+    _shape(len(a) == 3 and not k and ast.unparse(a[2]) == "options", "find_tcp_match")
+    return ("(P0f.Gen.findTcpMatch (if " + fn.expr(a[1], e)[0] + " == Dir.req then db.req else db.resp) (PktSig.toPSig "
+            + par(fn.expr(a[0], e)[0]) + ") maxDist)", "Opt:Rec:TcpMatch")
+
+
+def _ft_result(fn, a, k, e):
+    _shape(len(a) == 3 and not k and ast.unparse(a[0]) == "packet", "TCPResult")
+    return ("(let m := " + fn.expr(a[2], e)[0] + "; (m, P0f.Gen.distance m " + fn.expr(a[1], e)[0] + ".ttl))", "Tuple:Opt:Rec:TcpMatch,Int")
+
+
 TARGETS.append(dict(
     module="pyp0f.fingerprint.tcp", func="fingerprint_tcp", file="FingerprintTcp", lean="fingerprintTcp",
     import_="P0f.Generated.Logic.PktSigFromPacket\nimport P0f.Generated.Logic.FindTcpMatch\nimport P0f.Generated.Logic.TcpDistance\nimport P0f.Generated.Logic.ValidTcp\nimport P0f.Model.Api",
@@ -568,11 +614,8 @@ TARGETS.append(dict(
     env=dict(PKT_ENV, syn_mss=("syn_mss", "Nat"), options=("options", "Rec:Options"), packet=("pk", "Rec:PktL")),
     raises={"PacketError": "none"}, lean_types={"Rec:PktSig": "PktSig", "Rec:TcpMatch": "TcpMatch"},
     records={"PktSig": {"ttl": (".ttl", "Nat")}},
-    calls={"valid_for_tcp_fingerprint": lambda fn, a, k, e: ("(P0f.Gen.validTcp pk.ip.isFragment pk.tcp.type)", "Bool"),
-           "TCPPacketSignature.from_packet": lambda fn, a, k, e: ("(P0f.Gen.pktSigFromPacket pk " + par(fn.coerce(a[1], e, "Nat")) + ")", "Rec:PktSig"),
-           "find_tcp_match": lambda fn, a, k, e: ("(P0f.Gen.findTcpMatch (if " + fn.expr(a[1], e)[0] + " == Dir.req then db.req else db.resp) (PktSig.toPSig "
-                                                  + par(fn.expr(a[0], e)[0]) + ") maxDist)", "Opt:Rec:TcpMatch"),
-           "TCPResult": lambda fn, a, k, e: ("(let m := " + fn.expr(a[2], e)[0] + "; (m, P0f.Gen.distance m " + fn.expr(a[1], e)[0] + ".ttl))", "Tuple:Opt:Rec:TcpMatch,Int")},
+    calls={"valid_for_tcp_fingerprint": bound(["packet"], ("(P0f.Gen.validTcp pk.ip.isFragment pk.tcp.type)", "Bool")),
+           "TCPPacketSignature.from_packet": _ft_from_packet, "find_tcp_match": _ft_find, "TCPResult": _ft_result},
     alias="def fingerprintTcp (db : TcpDb) (pk : PktL) (syn_mss : Nat) (maxDist : Int) : Option (Option TcpMatch × Int) :=\n"
           "  if !P0f.validTcp pk.ip.isFragment pk.tcp.type then none else some (P0f.fingerprintTcp db (P0f.pktSigOfPkt pk syn_mss) (pk.tcp.type == F_SYN) maxDist)\n",
 ))
@@ -730,6 +773,12 @@ def _pf_db_add(fn, args, kw, env):
                       + " " + par(rec) + ")", "Rec:Db")
 
 
+def _pf_new_db(fn, args, kw, env):
+    if args or kw:
+        raise NotTranslatable("RecordsDatabase(...) with initial items")
+    return ("Db.empty", "Rec:Db")
+
+
 def _pf_record_ctor(fn, args, kw, env):
     want = ("label", "signature", "raw_signature", "line_number")
     if args or set(kw) != set(want) or env.get("record_cls") is None or env["record_cls"][1] != "Enum:RecKind":
@@ -792,7 +841,7 @@ TARGETS.append(dict(
     opt_types={"label": "Opt:Rec:DbLabel", "direction": "Opt:Enum:Dir", "record_cls": "Opt:Enum:RecKind"},
     lean_types={"Str": "List Char", "Rec:Db": "Db", "Rec:DbLabel": "DbLabel", "Rec:DbSig": "DbSig"},
     records={"DbLabel": {"is_user_app": (".isUserApp", "Bool")}},
-    calls={"RecordsDatabase": lambda fn, a, k, e: ("Db.empty", "Rec:Db"),
+    calls={"RecordsDatabase": _pf_new_db,
            "_parse_section": opt_call("P0f.Gen.parseSection", ["Str"], "Tuple:Enum:RecKind,Opt:Enum:Dir"),
            "%mut%database.create": _pf_db_create, "%mut%database.add": _pf_db_add,
            "record_cls": _pf_record_ctor,
